@@ -18,7 +18,8 @@ def sign(rng):
 
 
 def special_angles():
-    out = [0.0, PI / 4, -PI / 4, PI / 2, -PI / 2, PI, -PI, 3 * PI / 2, -3 * PI / 2, 2 * PI, -2 * PI]
+    out = [0.0, PI / 4, -PI / 4, PI / 2, -PI / 2, PI, -PI, 3 * PI / 2, -3 * PI / 2, 2 * PI, -2 * PI,
+           -0.0, 5e-324, -5e-324, 2.3e-308, -2.3e-308]      # negative zero, the smallest denormal, the smallest normal number
     for c in (0.0, PI / 2, -PI / 2, PI, -PI):
         for d in DELTAS:
             out += [c + d, c - d]
